@@ -345,7 +345,9 @@ func (x *c15Ctx) checkSuccess(a *C15Action, kind string, tr *TwinResult, rc *typ
 		rep.Violation("success-not-applied:"+tag+":"+what, fmt.Sprintf(format, args...)+"; "+a.Describe(), replay)
 	}
 	special := func(ad common.Address) bool { return ad == sender || ad == coinbase }
-	storeKey := func(c common.Address, key []byte) []byte { return s1[string(state.StateDbKeys.ContractStoreKey(c, key))] }
+	storeKey := func(c common.Address, key []byte) []byte {
+		return s1[string(state.StateDbKeys.ContractStoreKey(c, key))]
+	}
 	rep.Count("oracle4_success_checked", 1)
 	switch tx.Type {
 	case types.DeployContractTx:
@@ -873,7 +875,7 @@ func TestVerifC15SameBlock(t *testing.T) {
 		c := &C15Contract{Kind: kOV, Owner: owner}
 		dep := g.build(&cand{txKind: "Deploy", kind: kOV, c: c, from: owner, method: "deploy", shape: "valid", noMut: true,
 			amount: new(big.Int).Add(g.minStake(), big.NewInt(5)),
-			args: [][]byte{[]byte("fact"), u64b(uint64(w.Now().Unix() - 10)), u64b(2), u64b(100), {51}, {1}, u64b(ns), {0}, {0}}})
+			args:   [][]byte{[]byte("fact"), u64b(uint64(w.Now().Unix() - 10)), u64b(2), u64b(100), {51}, {1}, u64b(ns), {0}, {0}}})
 		commit("deploy", dep)
 		deposit := new(big.Int).Add(new(big.Int).SetBytes(g.cval(c.Addr, "ownerDeposit")), Dna(10))
 		commit("start", g.build(&cand{txKind: "Call", kind: kOV, c: c, from: owner, method: "startVoting", amount: deposit, shape: "valid", noMut: true}))
@@ -995,7 +997,7 @@ func TestVerifC15SameBlock(t *testing.T) {
 			ghost := c15Addr(g.R) // a voting that does not exist: push unlocks the refund path
 			commit("rol deploy", g.build(&cand{txKind: "Deploy", kind: kROL, c: rc, from: owner, method: "deploy", shape: "valid", noMut: true,
 				amount: new(big.Int).Add(g.minStake(), big.NewInt(5)),
-				args: [][]byte{ghost.Bytes(), {1}, nil, nil, u64b(0), u64b(uint64(w.Now().Unix() + 100000)), feeArg}}))
+				args:   [][]byte{ghost.Bytes(), {1}, nil, nil, u64b(0), u64b(uint64(w.Now().Unix() + 100000)), feeArg}}))
 			commit("rol first deposit", g.build(&cand{txKind: "Call", kind: kROL, c: rc, from: w.Accounts[1], method: "deposit", amount: Dna(300), shape: "valid", noMut: true}))
 			commit("rol push", g.build(&cand{txKind: "Call", kind: kROL, c: rc, from: owner, method: "push", amount: big.NewInt(0), shape: "valid", noMut: true}))
 			var rtxs []*C15Action
@@ -1123,7 +1125,7 @@ func TestVerifC15LongTermination(t *testing.T) {
 		vs[i] = c
 		commit("deploy", g.build(&cand{txKind: "Deploy", kind: kOV, c: c, from: owner, method: "deploy", shape: "valid", noMut: true,
 			amount: new(big.Int).Add(g.minStake(), big.NewInt(5)),
-			args: [][]byte{[]byte("fact"), u64b(uint64(w.Now().Unix() - 10)), u64b(6), u64b(100), {51}, {1}, u64b(ns), Dna(1).Bytes(), {10}}}))
+			args:   [][]byte{[]byte("fact"), u64b(uint64(w.Now().Unix() - 10)), u64b(6), u64b(100), {51}, {1}, u64b(ns), Dna(1).Bytes(), {10}}}))
 		dep := new(big.Int).Add(new(big.Int).SetBytes(g.cval(c.Addr, "ownerDeposit")), Dna(50))
 		commit("start", call(c, owner, "startVoting", dep))
 	}
